@@ -107,7 +107,7 @@ PROPS["C19"] = {
 PROPS["C05"] = {
     "suites": ["generate_include", "c05_inline"],
     "trusted": GEN_TRUST,
-    "level_text": "WHOLE-COMMAND THEOREM for word-list include files (entries, comments, blank lines): for every includer, position, includer state and map order, generate of the file with the include line equals generate of the file with the lines typed in place (partial: include files with own definitions/prefixes/suffixes/nested includes are covered by the lemmas below and the by-hand inlining oracle). Kernel-checked theorems about the Gallina transcription of parseFile/mergePrefixesSuffixes for all parser results: a file without prefixes, suffixes and flags hands over exactly its own parsed text (no wrapping), prefixes/suffixes are emitted as a local assemble block around the file's own text, a flags line makes the include fail, the include directory is searched before the exclude directory and .ra is appended exactly when missing. Tied by pins and by end-to-end runs of the including programs through binary and model. Per generated case the binary's output for the including program is compared with its output for the program in which the harness typed the lines in place (bytes; where the text differs, the verified equivalence checker), at top level, inside assemble and inside cmdline blocks; and with the plain reading.",
+    "level_text": "WHOLE-COMMAND THEOREM for word-list include files (entries, comments, blank lines): for every includer, position, includer state and map order, generate of the file with the include line equals generate of the file with the lines typed in place and for include files with their OWN prefix/suffix lines: generate of the file with the include line equals generate of the file with the local block (##!> assemble / prefix / ##!=> / entries / ##!=> / suffix / ##!=> / ##!<) typed in place, provided the prefix/suffix values are ordinary entry lines (partial: include files with own definitions or nested includes are covered by the lemmas below and the by-hand inlining oracle). Kernel-checked theorems about the Gallina transcription of parseFile/mergePrefixesSuffixes for all parser results: a file without prefixes, suffixes and flags hands over exactly its own parsed text (no wrapping), prefixes/suffixes are emitted as a local assemble block around the file's own text, a flags line makes the include fail, the include directory is searched before the exclude directory and .ra is appended exactly when missing. Tied by pins and by end-to-end runs of the including programs through binary and model. Per generated case the binary's output for the including program is compared with its output for the program in which the harness typed the lines in place (bytes; where the text differs, the verified equivalence checker), at top level, inside assemble and inside cmdline blocks; and with the plain reading.",
     "level_note": "Trusted as C01. The whole-parser statement 'parse(pre ++ include F ++ post) = parse(pre ++ own_buffer F ++ post)' is decided per generated case, not yet by a theorem. Include cycles are outside (C19).",
     "assumptions": ["include files exist and do not include themselves"],
 }
